@@ -12,8 +12,14 @@ Local Open Scope string_scope.
 
 Definition oracle := String.string -> list bytes -> list bytes.
 
-Definition n4 (n : N) : bytes := be_bytes 4 n.
-Definition nat4 (n : nat) : bytes := be_bytes 4 (N.of_nat n).
+(* Numbers handed to the oracle: 4 bytes big-endian when they fit (every value the schemes ever pass), and
+   [N.size n] bytes otherwise, so that the encoding is INJECTIVE on all of N.  (A fixed 4-byte field would
+   make "length (hkdf .. n) = n for all n" contradictory: n and n + 2^32 would reach the oracle as the same
+   argument.  ToyOracle.v proves that [laws] below has a model.) *)
+Definition nenc (n : N) : bytes :=
+  if (n <? 2 ^ 32)%N then be_bytes 4 n else be_bytes (N.to_nat (N.size n)) n.
+Definition n4 (n : N) : bytes := nenc n.
+Definition nat4 (n : nat) : bytes := nenc (N.of_nat n).
 Definition flag (l : list bytes) : bool :=
   match l with [b] => beq b (hex "01") | _ => false end.
 Definition opt1 (l : list bytes) : option bytes :=
@@ -90,7 +96,11 @@ End Prims.
 Definition p384_n : N :=
   39402006196394479212279040100143613805079739270465446667946905279627659399113263569398956308152294913554433653942643%N.
 
-(* The premises theorems may use.  Each field is a standard fact about the named primitive. *)
+(* The premises theorems may use.  Each field is a standard fact about the named primitive, stated for a
+   TOTAL extension of it: outside the primitive's domain (an AES key that is not 32 bytes, a BLAKE2b output
+   longer than 64, an HKDF output longer than 255*48, an RSA message not below the modulus) the extension
+   answers with some value of the stated length / "no answer", which the primitive server does not compute:
+   it stops the run ("left the primitive's domain") so that a model leaving the domain is never silent. *)
 Record laws (O : oracle) : Prop := {
   sha384_len : forall m, length (sha384 O m) = 48;
   hmac384_len : forall k m, length (hmac384 O k m) = 48;
